@@ -1123,6 +1123,19 @@ namespace mc
                         S->stop.store(1);
                         r.caps.push_back("crash-limit");
                     }
+                    if (now() > g_deadline && !S->stop.load())
+                    { // the deadline is normally noticed by workers between cases; a crashing
+                      // case never gets there, so the supervisor enforces it as well
+                        S->stop.store(1);
+                        if (std::find(r.caps.begin(), r.caps.end(), "deadline") == r.caps.end())
+                            r.caps.push_back("deadline");
+                    }
+                    if (S->stop.load())
+                    {
+                        pid[w] = 0;
+                        live--;
+                        continue;
+                    }
                     lastp[w] = S->slot[w].progress.load();
                     lastt[w] = now();
                     pid[w] = spawn_worker(c, w, true);
